@@ -309,6 +309,11 @@ func main() {
 		os.Exit(1)
 	}
 	fmt.Printf("C01Lexer.lean: %d token types, %d definitions, %d delimiter types, shapeChanged=%d\n", len(order), len(defs), len(delim), len(shape))
+	// C18 (shares this translator): writes to the location of an existing error
+	errLocFacts(a)
+	fragFacts(a)
+	// C01, parse-work clause: every write of a parser position (rewinds.go)
+	rewindFacts(a)
 }
 
 func writeNats(sb *strings.Builder, name, doc string, xs []int) {
